@@ -119,7 +119,7 @@ func main() {
 			for rep := 0; rep < 20; rep++ {
 				fs := append(append([]string{}, fams...), "undecodable", "nonpf")
 				if rep%3 == 0 {
-					fs = append(fs, "reconnect", "burst") // slower families: every third round
+					fs = append(fs, "reconnect", "burst", "live") // slower families: every third round
 				}
 				for _, f := range fs {
 					cases = append(cases, genScenario(r.Fork(), f, true))
@@ -134,7 +134,7 @@ func main() {
 					cases = append(cases, genScenario(r.Fork(), f, false))
 				}
 			}
-			for _, f := range []string{"undecodable", "nonpf", "reconnect", "reconnect", "burst", "burst"} {
+			for _, f := range []string{"undecodable", "nonpf", "reconnect", "reconnect", "burst", "burst", "live"} {
 				cases = append(cases, genScenario(r.Fork(), f, false))
 			}
 		}
